@@ -20,6 +20,7 @@ import (
 	"strconv"
 	"strings"
 	"sync"
+	"sync/atomic"
 	"time"
 
 	"github.com/google/pprof/internal/binutils"
@@ -239,6 +240,141 @@ func runC20(c *Ctx) {
 	fieldCase("fields-two-writers", 2, 50)
 	for n := 0; n < c.Budget(40, 600); n++ {
 		fieldCase("fields-random", 2+c.R.Intn(len(c20Fields)-1), 5+c.R.Intn(c.Budget(40, 200)))
+	}
+
+	// ---- error paths of the option store followed by more work: a rejected assignment must leave the
+	// store usable (no lock may stay held once the operation has returned), sequentially and with
+	// several goroutines running such sequences at once (watchdog: a blocked run is an observable)
+	c20Names := []string{"nodecount", "sort", "granularity", "cum", "flat", "functions", "filefunctions", "files", "lines", "addresses", "focus", "nosuchoption", "trim"}
+	c20Values := []string{"", "0", "1", "true", "false", "t", "F", "cum", "flat", "lines", "10", "-3", "abc", "yes"}
+	errCase := func(gen string, threads [][][2]string) {
+		driver.VerifC20Set(-1, "")
+		driver.VerifC20LeakedLocks()
+		res := make([][]Term, len(threads))
+		run := func(i int) {
+			for _, op := range threads[i] {
+				err := driver.VerifC20Configure(op[0], op[1])
+				if len(threads) == 1 {
+					// quiescent: nothing else runs, so every mutex of the package must be free again
+					res[i] = append(res[i], L(Bool(err != nil), Ss(driver.VerifC20LeakedLocks())))
+				} else {
+					res[i] = append(res[i], L(Bool(err != nil), Ss(nil)))
+				}
+				driver.VerifC20Get()
+			}
+		}
+		blocked := 0
+		if len(threads) == 1 {
+			run(0)
+		} else {
+			var wg sync.WaitGroup
+			gate := make(chan struct{})
+			done := make(chan struct{})
+			wg.Add(len(threads))
+			for i := range threads {
+				go func(i int) { defer wg.Done(); <-gate; run(i) }(i)
+			}
+			close(gate)
+			go func() { wg.Wait(); close(done) }()
+			select {
+			case <-done:
+			case <-time.After(1500 * time.Millisecond):
+				// not finished after 1.5 s although every operation takes microseconds: a lock was left
+				// held. Record it, then keep releasing leaked locks so that the run can finish.
+				blocked = 1
+				for waiting, n := true, 0; waiting && n < 500; n++ {
+					driver.VerifC20LeakedLocks()
+					select {
+					case <-done:
+						waiting = false
+					case <-time.After(10 * time.Millisecond):
+					}
+				}
+			}
+		}
+		leakedAfter := driver.VerifC20LeakedLocks()
+		var tt, rr []Term
+		for i, th := range threads {
+			var ops []Term
+			for _, op := range th {
+				ops = append(ops, L(S(op[0]), S(op[1])))
+			}
+			tt = append(tt, L(ops...))
+			for len(res[i]) < len(th) { // a thread that never finished
+				res[i] = append(res[i], L(Z(-1), Ss(nil)))
+			}
+			rr = append(rr, L(res[i]...))
+		}
+		c.Case(gen, L(S("errpaths"), L(tt...)), L(L(rr...), ZI(blocked), Ss(leakedAfter)), true, "op:errpaths")
+		driver.VerifC20Set(-1, "")
+	}
+	errCase("errpaths-rejected-choice", [][][2]string{{{"sort", "flat"}, {"cum", "false"}, {"cum", "true"}, {"lines", "0"}, {"nodecount", "x"}, {"nodecount", "7"}}})
+	for n := 0; n < c.Budget(60, 1500); n++ {
+		nt := 1
+		if n%3 == 2 {
+			nt = 2 + c.R.Intn(3)
+		}
+		var th [][][2]string
+		for i := 0; i < nt; i++ {
+			var ops [][2]string
+			for j := 0; j < 1+c.R.Intn(6); j++ {
+				ops = append(ops, [2]string{PickS(c.R, c20Names), PickS(c.R, c20Values)})
+			}
+			th = append(th, ops)
+		}
+		errCase("errpaths-random", th)
+	}
+
+	// ---- temp-file registry: files are created and registered while cleanups run; the cleanup the
+	// tool runs on exit must then leave no registered file behind and no cleanup may fail
+	regCase := func(gen string, pre, writers, cleaners int) {
+		d := scratchDir()
+		defer os.RemoveAll(d)
+		driver.VerifC20Cleanup()
+		var all []string
+		var allMu sync.Mutex
+		mk := func(tag string, i int) string {
+			n := filepath.Join(d, fmt.Sprintf("%s%05d.tmp", tag, i))
+			os.WriteFile(n, []byte("x"), 0o644)
+			allMu.Lock()
+			all = append(all, n)
+			allMu.Unlock()
+			return n
+		}
+		for i := 0; i < pre; i++ {
+			driver.VerifC20DeferDelete(mk("pre", i))
+		}
+		var running int32 = int32(cleaners)
+		var errs int32
+		c20RunPar(writers+cleaners, func(i int) {
+			if i < cleaners {
+				if err := driver.VerifC20Cleanup(); err != nil {
+					atomic.AddInt32(&errs, 1)
+				}
+				atomic.AddInt32(&running, -1)
+				return
+			}
+			// register new files for as long as a cleanup is running (bounded)
+			for j := 0; j < 4000 && (atomic.LoadInt32(&running) > 0 || j < 3); j++ {
+				driver.VerifC20DeferDelete(mk(fmt.Sprintf("w%d_", i), j))
+			}
+		})
+		if err := driver.VerifC20Cleanup(); err != nil { // the cleanup PProf runs on exit
+			errs++
+		}
+		leaked := 0
+		for _, n := range all {
+			if _, err := os.Stat(n); err == nil {
+				leaked++
+			}
+		}
+		c.dist["registry:files-registered"] += len(all)
+		c.Case(gen, L(S("registry"), ZI(pre), ZI(writers), ZI(cleaners)), L(ZI(leaked), Z(int64(errs)), Ss(driver.VerifC20LeakedLocks())), true, "op:registry")
+	}
+	regCase("registry-one-cleanup", 400, 2, 1)
+	regCase("registry-two-cleanups", 400, 1, 2)
+	for n := 0; n < c.Budget(14, 80); n++ {
+		regCase("registry-random", 100+c.R.Intn(c.Budget(500, 3000)), 1+c.R.Intn(3), 1+c.R.Intn(2))
 	}
 
 	// ---- Write / WriteUncompressed / Copy on one profile
